@@ -1,4 +1,5 @@
 import ArimModel.ScatMat
+import ArimProofs.Tie.C10
 import ArimProofs.Lemmas.ScatMat
 import Mathlib.Analysis.SpecialFunctions.Trigonometric.Basic
 import Mathlib.Analysis.SpecialFunctions.Complex.Log
@@ -430,6 +431,50 @@ theorem rotateShift_asMatrix (pi : K) (n : ℕ) (hn : 1 ≤ n) (f : K → K → 
       = asMatrix stdF pi n (fun x y => f (x - k * (2 * pi / n)) (y - k * (2 * pi / n))) j i := by
   simp only [rotateShift, asMatrix]
   rw [angle_shift pi n hn i k, angle_shift pi n hn j k, hper₁, hper₂]
+/-! ### The interpolation kernel as translated from the source on this run
+
+`Src.interpolate_scattering_matrix_kernel` (file `Generated/SrcC10.lean`) is the translation of
+`arim._scat._interpolate_scattering_matrix_kernel`; for lawful numerical routines (`Tie.C10.Lawful`; the standard
+routines of any floor field are lawful) `Tie.C10.tie_interp` identifies it with `interp`. -/
+open Arim.Tie.C10
+
+/-- the routines of the translated code in a floor field: `floor`, `int()` (truncation), integer embeddings; `pi` a parameter -/
+def srcOpsF (pi : K) : Src.Ops K :=
+  { sin := id, cos := id, asin := id, sqrt := id, exp := id, sinc := id, pi := pi,
+    ofNat := fun n => (n : K), ofInt := fun z => (z : K), floor := Int.floor, round := Int.floor,
+    trunc := fun x => if 0 ≤ x then ⌊x⌋ else ⌈x⌉ }
+
+theorem fops_srcOpsF (pi : K) : fops (srcOpsF pi) = stdF := rfl
+
+/-- the standard routines are lawful -/
+theorem lawful_srcOpsF (pi : K) : Lawful (srcOpsF pi) where
+  ofNat_eq n := by simp [srcOpsF]
+  trunc_ofInt z := by
+    simp only [srcOpsF]
+    split <;> simp
+  floor_ofInt_div a n hn := by
+    simp only [srcOpsF, Int.cast_natCast]
+    rw [Int.floor_div_natCast, Int.floor_intCast]
+  ofInt_sub_mul a b c := by simp [srcOpsF]
+
+/-- **the translated kernel reproduces the matrix at its nodes** (any period `k`) -/
+theorem src_interp_node (pi : K) (hpi : 0 < pi) (n : ℕ) (m : ℕ → ℕ → K) (i j : ℕ)
+    (hi : i < n) (hj : j < n) (k l : ℤ) :
+    Src.interpolate_scattering_matrix_kernel (srcOpsF pi) m n
+      (angle stdF pi n i + 2 * pi * k) (angle stdF pi n j + 2 * pi * l) = m j i := by
+  rw [tie_interp _ (lawful_srcOpsF pi) m n (by omega), fops_srcOpsF]
+  show interp stdF pi n m _ _ = _
+  exact interp_node pi hpi n m i j hi hj k l
+
+/-- **the translated kernel wraps around**: it is `2π`-periodic in each angle, for any real angles -/
+theorem src_interp_periodic (pi : K) (hpi : 0 < pi) (n : ℕ) (hn : 1 ≤ n) (m : ℕ → ℕ → K)
+    (inc out : K) (k l : ℤ) :
+    Src.interpolate_scattering_matrix_kernel (srcOpsF pi) m n (inc + 2 * pi * k) (out + 2 * pi * l) =
+      Src.interpolate_scattering_matrix_kernel (srcOpsF pi) m n inc out := by
+  rw [tie_interp _ (lawful_srcOpsF pi) m n (by omega), tie_interp _ (lawful_srcOpsF pi) m n (by omega), fops_srcOpsF]
+  show interp stdF pi n m (inc + 2 * pi * k) (out + 2 * pi * l) = interp stdF pi n m inc out
+  rw [(interp_periodic pi hpi n hn m inc (out + 2 * pi * l) k).1, (interp_periodic pi hpi n hn m inc out l).2]
+
 end grid
 
 /-! ## Interpolation in frequency -/
